@@ -223,6 +223,34 @@ STRV = ['foo', 'bar', 'a', 'b', '1', '2', '+', '*', '(', ')', ';', ',', ':=', ':
 SLOTS = {'<ID>', '<INT>', '<V>', '<A>', '<P>'}
 
 
+def source_numbers():
+    """numeric constants of the compiler sources (at least two digits): boundary values for priorities and budgets"""
+    import glob
+    vals = set()
+    for f in sorted(glob.glob(os.path.join(vlib.REPO, 'Compiler/src/*.cpp')) + glob.glob(os.path.join(vlib.REPO, 'Compiler/include/*.hpp'))):
+        if 'lex.yy' in f:
+            continue
+        t = re.sub(r'//[^\n]*', '', open(f, errors='replace').read())
+        for m in re.finditer(r'(?<![\w.])(\d{2,10})(?![\w.])', t):
+            if int(m.group(1)) < 2 ** 31 - 1:
+                vals.add(int(m.group(1)))
+    return sorted(vals)
+
+
+_BP = []
+
+
+def boundary_prios():
+    if _BP:
+        return _BP
+    out = {1, 7}
+    for v in source_numbers():
+        if v >= 100:
+            out |= {v - 1, v, v + 1}
+    _BP.extend(sorted(out))
+    return _BP
+
+
 def macro_case(rnd):
     """random macro set + stream (as source text), with a planted instance half of the time"""
     macros = []
@@ -235,7 +263,7 @@ def macro_case(rnd):
                 body.append('$%d' % rnd.randrange(ns))
             else:
                 body.append(rnd.choice(BODV))
-        macros.append((rnd.choice([1, 2, 2, 3]), pat, body))
+        macros.append((rnd.choice([1, 2, 2, 3]) if rnd.random() < 0.85 else rnd.choice(boundary_prios()), pat, body))
     stream = [rnd.choice(STRV) for _ in range(rnd.randint(1, 9))]
     if rnd.random() < 0.5:
         fill = {'<ID>': ['a'], '<INT>': ['2'], '<V>': rnd.choice([['b'], ['1'], ['RUN', 'foo', 'WITH', 'a', ',', '1', 'END']]),
